@@ -520,11 +520,16 @@ func genVal(c *Chooser, g GenCfg, depth int) *Val {
 		for i := 0; i < n; i++ {
 			v.Elems = append(v.Elems, genVal(c, g, depth+1))
 		}
-		if c.Chance(1, 8) {
-			// members that are easily confused with one another: empty
-			// containers, the empty string, zero, false
-			for i := 0; i < c.Range(1, 3); i++ {
-				v.Elems = append(v.Elems, []*Val{{K: 'a'}, {K: 'o'}, vs(""), vn(0), {K: 'b'}, vs("0")}[c.Int(6)])
+		if c.Chance(1, 6) {
+			// a pair of members that are easily confused with one another:
+			// empty containers, the empty string, zero, false, "0"
+			pairs := [][2]*Val{{{K: 'a'}, vs("")}, {{K: 'a'}, {K: 'o'}}, {{K: 'o'}, vs("")}, {vn(0), vs("0")}, {{K: 'b'}, vn(0)}, {{K: 'z'}, vs("")}}
+			pr := pairs[c.Int(len(pairs))]
+			for _, m := range pr {
+				if m.K == 'z' && !g.Nulls {
+					continue
+				}
+				v.Elems = append(v.Elems, m.clone())
 			}
 		}
 		return v
@@ -854,4 +859,23 @@ func editable(v *Val, protectIDs bool, out []*Val) []*Val {
 		}
 	}
 	return out
+}
+
+// shuffleArrays returns a clone of v in which every array is permuted (and,
+// when dup is set, some member repeated): equal to v as sets or multisets.
+func shuffleArrays(c *Chooser, v *Val, dup bool) *Val {
+	v = v.clone()
+	for _, n := range containers(v, nil) {
+		if n.K != 'a' {
+			continue
+		}
+		for i := len(n.Elems) - 1; i > 0; i-- {
+			j := c.Int(i + 1)
+			n.Elems[i], n.Elems[j] = n.Elems[j], n.Elems[i]
+		}
+		if dup && len(n.Elems) > 0 && c.Chance(1, 3) {
+			n.Elems = append(n.Elems, n.Elems[c.Int(len(n.Elems))].clone())
+		}
+	}
+	return v
 }
